@@ -299,6 +299,11 @@ def callgraph_export(cx):
     version that has subroutines (4..8), on the call-heavy adversarial layouts and a sample of the call-loop family"""
     rng = random.Random(f"cg/{cx.seed}")
     srcs = [(k, ADVERSARIAL[k]) for k in ('dead-calls', 'empty-sub', 'call-last', 'recursion', 'shared-sub-twice', 'dead-two-succ-in-sub')]
+    # call structures that no walk from `__main__` (or from a subroutine nobody calls) covers: a mutual-recursion island called only
+    # from dead code or from itself, a subroutine whose only call site is inside itself, an island that calls a reachable helper
+    srcs += [('recursion-island', "#pragma version 8\ncallsub helper\nint 1\nreturn\nhelper:\nint 3\npop\nretsub\nping:\nint 1\nbz ping_out\ncallsub pong\nping_out:\nretsub\npong:\ncallsub helper\ncallsub ping\nretsub\n"),
+             ('self-only-recursion', "#pragma version 8\nint 1\nreturn\ncountdown:\nload 0\nbz cd_out\ncallsub countdown\ncd_out:\nretsub\n"),
+             ('island-from-dead-code', "#pragma version 8\nint 1\nreturn\ncallsub a\nerr\na:\ncallsub b\nretsub\nb:\nload 1\nbz b_out\ncallsub a\nb_out:\nretsub\n")]
     items = []
     for k, src in srcs:
         for v in ((4, 5, 6, 7, 8) if not cx.quick() else (4, rng.choice([5, 6, 7]), 8)):
